@@ -473,15 +473,15 @@ Section CoreFacts.
     | _ => None
     end.
 
-  Lemma entry_at_cell es n c k v : nth_error es n = Some c -> te_keyed c = Some k -> te_val c = Some v ->
-    entry_at es n = Some (k, (v, te_expire c)).
+  Lemma entry_at_cell es n c k v e : nth_error es n = Some c -> te_keyed c = Some k -> te_val c = Some v ->
+    te_expire c = e -> entry_at es n = Some (k, (v, e)).
   Proof.
-    intros E Ek Ev. unfold entry_at. rewrite E. destruct c as [e ko lo to vo]. simpl in *. subst. reflexivity.
+    intros E Ek Ev Ee. unfold entry_at. rewrite E. destruct c as [e1 ko lo to vo]. simpl in *. subst. reflexivity.
   Qed.
-  Lemma ordent_at_cell es n c k : nth_error es n = Some c -> te_keyed c = Some k ->
-    ordent_at es n = Some (te_expire c, k).
+  Lemma ordent_at_cell es n c k e : nth_error es n = Some c -> te_keyed c = Some k ->
+    te_expire c = e -> ordent_at es n = Some (e, k).
   Proof.
-    intros E Ek. unfold ordent_at. rewrite E. destruct c as [e ko lo to vo]. simpl in *. subst. reflexivity.
+    intros E Ek Ee. unfold ordent_at. rewrite E. destruct c as [e1 ko lo to vo]. simpl in *. subst. reflexivity.
   Qed.
   Lemma entry_at_inv es n k v e : entry_at es n = Some (k, (v, e)) ->
     exists c, nth_error es n = Some c /\ te_keyed c = Some k /\ te_val c = Some v /\ te_expire c = e.
@@ -546,7 +546,7 @@ Section CoreFacts.
     exists v, e. split.
     - exists c. repeat split; auto.
     - apply tl_in_assoc_nodup; auto. eapply reads_in; [exact Hmap|apply -> in_rev; exact I|].
-      rewrite <- He0. apply entry_at_cell; auto.
+      eapply entry_at_cell; eauto.
   Qed.
 
   Lemma core_lookup_none cap es ix used free o lru ord k :
@@ -587,10 +587,10 @@ Section CoreFacts.
     split.
     { rewrite <- remove_nat_rev by exact Nu.
       eapply reads_remove; [exact Hmap|exact Nk|apply -> in_rev; exact I|].
-      rewrite <- Hce. apply entry_at_cell; auto. }
+      eapply entry_at_cell; eauto. }
     split.
     { eapply rd_remove; [exact Hord|exact Nko|apply Huo; exact I|].
-      rewrite <- Hce. apply ordent_at_cell; auto. }
+      eapply ordent_at_cell; eauto. }
     split. { rewrite map_snd_ord_remove. apply nodup_remove_nat. exact Hndo. }
     split.
     { intros m. rewrite map_snd_ord_remove. rewrite !in_remove_nat by auto. rewrite Huo. tauto. }
@@ -639,10 +639,10 @@ Section CoreFacts.
     { simpl rev. rewrite <- remove_nat_rev by exact Nu. rewrite !map_app. f_equal.
       - erewrite map_ext_in.
         + eapply reads_remove; [exact Hmap|exact Nk|apply -> in_rev; exact I|].
-          rewrite <- Hce. apply entry_at_cell; auto.
+          eapply entry_at_cell; eauto.
         + intros m Im. apply entry_at_ext. apply Hm.
           apply in_remove_nat in Im; [tauto|]. apply NoDup_rev. exact Nu.
-      - simpl. f_equal. rewrite <- He'. apply entry_at_cell; auto. }
+      - simpl. f_equal. eapply entry_at_cell; eauto. }
     split; [exact Hord2|].
     split. { eapply Permutation_NoDup; [symmetry; exact Po|exact Hndo]. }
     split.
@@ -694,7 +694,7 @@ Section CoreFacts.
     { simpl rev. rewrite !map_app. f_equal.
       - rewrite <- Hmap. apply map_ext_in. intros m Im. apply entry_at_ext. apply Hm.
         apply in_rev in Im. intros Emn; subst; auto.
-      - simpl. f_equal. rewrite <- He'. apply entry_at_cell; auto. }
+      - simpl. f_equal. eapply entry_at_cell; eauto. }
     split; [exact Hord2|].
     split.
     { eapply Permutation_NoDup; [symmetry; exact Po|]. constructor; auto.
@@ -722,3 +722,40 @@ Section CoreFacts.
       inversion E'; subst. split; [left; auto|]. exists c'. auto.
   Qed.
 End CoreFacts.
+
+Section EmplaceFacts.
+  Context {K V : Type} `{EqDec K}.
+  Local Open Scope list_scope.
+  Local Open Scope nat_scope.
+
+  (* m_ttl_list.emplace(...) of both containers files the new node where dl_insert does *)
+  Lemma ord_emplace_reads (u : bool) (s : ttll K V) es h h' (o : list (Z * nat)) (ord : list (Z * K)) e k n :
+    map (rd h) o = map (@Some (Z * K)) ord ->
+    StronglySorted Z.le (map fst ord) ->
+    (u = false -> forall z x, In (z, x) o -> exists k', h x = Some (z, k')) ->
+    (forall x e' k', In x (map snd o) -> h x = Some (e', k') ->
+                     exists c, nth_error es x = Some c /\ te_expire c = e') ->
+    (forall x, In x (map snd o) -> h' x = h x) -> h' n = Some (e, k) ->
+    exists o2, ord_emplace u s es e n o = Ok o2 /\
+               map (rd h') o2 = map (@Some (Z * K)) (dl_insert e k ord) /\
+               Permutation (map snd o2) (n :: map snd o) /\
+               (u = false -> forall z x, In (z, x) o2 -> (z, x) = (e, n) \/ In (z, x) o).
+  Proof.
+    intros E Hs Hz Hes Hx Hn. unfold ord_emplace. destruct u.
+    - destruct (rd_walk es h h' e k n (rev o) (rev ord)) as (r' & W & R1); auto.
+      + rewrite !map_rev, E. reflexivity.
+      + intros x e' k' I. apply Hes. rewrite map_rev in I. apply in_rev in I. exact I.
+      + rewrite rev_involutive. exact Hs.
+      + intros x I. apply Hx. rewrite map_rev in I. apply in_rev in I. exact I.
+      + rewrite W. cbn [bind]. eexists. split; [reflexivity|]. split; [|split].
+        * rewrite map_rev, R1, <- map_rev, !rev_involutive. reflexivity.
+        * rewrite map_rev. eapply perm_trans; [symmetry; apply Permutation_rev|].
+          eapply perm_trans; [eapply perm_walk_emplace; exact W|].
+          apply perm_skip. rewrite map_rev. symmetry. apply Permutation_rev.
+        * discriminate.
+    - eexists. split; [reflexivity|]. split; [|split].
+      + apply rd_mm with (h := h); auto.
+      + change (n :: map snd o) with (map snd ((e, n) :: o)). apply Permutation_map. apply perm_mm_emplace.
+      + intros _ z x I. apply in_mm_emplace in I. exact I.
+  Qed.
+End EmplaceFacts.
